@@ -1,7 +1,7 @@
 (* Lemmas about Model/Pipeline.v: stability of the tile38-level parser (HTTP sniff + redcon) under
    appended bytes, the carry-over step of ReadMessages, absence of Panic after the proposed repair. *)
 From Coq Require Import ZifyN ZifyNat ZifyBool.
-From T38 Require Import Base.Bytes Model.Resp Model.Pipeline Proofs.RespProofs.
+From T38 Require Import Base.Bytes Model.Resp Model.Pipeline Proofs.RespProofs Proofs.ChunkProofs Proofs.PanicProofs.
 Local Open Scope Z_scope.
 
 Definition cext (e : bytes) (r r' : cres) : Prop :=
@@ -55,9 +55,14 @@ Section WithHttp.
 End WithHttp.
 
 (* ---------- the carry-over step of ReadMessages, for any parser stable under appended bytes ---------- *)
+Definition cgood (parse : bytes -> cres) : Prop :=
+  forall d, match parse d with CComplete _ _ rest => len rest < len d | CFuel => False | _ => True end.
+
 Section Accumulate.
   Variable parse : bytes -> cres.
-  Hypothesis parse_stable : forall d e, cext e (parse d) (parse (d ++ e)).
+  Variable B : Z.   (* buffers shorter than B (a Go slice is shorter than 2^62) *)
+  Hypothesis parse_stable : forall d e, len (d ++ e) < B -> cext e (parse d) (parse (d ++ e)).
+  Hypothesis parse_good : cgood parse.
 
   Definition prepend (ms : list msg) (r : rm_res) : rm_res :=
     match r with RM ms' b x => RM (ms ++ ms') b x | other => other end.
@@ -102,40 +107,44 @@ Section Accumulate.
 
   (* parsing d ++ e = parsing d, keeping the leftover b, then parsing b ++ e *)
   Lemma rm_loop_app e : forall f d ms b f2,
+    len (d ++ e) < B ->
     rm_loop parse f d = RM ms b None ->
     rm_loop parse f2 (b ++ e) <> RMFuel ->
     rm_loop parse (f + f2) (d ++ e) = prepend ms (rm_loop parse f2 (b ++ e)).
   Proof.
-    induction f as [|f IH]; intros d ms b f2 H Hn; [cbn in H; discriminate|].
+    induction f as [|f IH]; intros d ms b f2 Hb H Hn; [cbn in H; discriminate|].
     rewrite rm_loop_S in H.
     destruct d as [|x d].
     { inversion H; subst. cbn [app] in *. rewrite prepend_nil. apply rm_loop_mono; [lia|assumption]. }
-    pose proof (parse_stable (x :: d) e) as St.
+    pose proof (parse_stable (x :: d) e Hb) as St. pose proof (parse_good (x :: d)) as G.
     destruct (parse (x :: d)) as [args k rest| |x0| |] eqn:P; try discriminate.
-    - cbn [cext] in St. change (S f + f2)%nat with (S (f + f2)). rewrite rm_loop_S.
+    - assert (Hb' : len (rest ++ e) < B) by (rewrite len_app in *; lia).
+      cbn [cext] in St. change (S f + f2)%nat with (S (f + f2)). rewrite rm_loop_S.
       change ((x :: d) ++ e) with (x :: d ++ e) in *. rewrite St.
       destruct k; destruct args; try discriminate;
         (destruct (rm_loop parse f rest) as [ms' b' x'| | |] eqn:D; try discriminate;
-         injection H as Hm Hb Hx; subst ms b' x';
-         rewrite (IH rest ms' b f2 D Hn);
+         injection H as Hm Hbb Hx; subst ms b' x';
+         rewrite (IH rest ms' b f2 Hb' D Hn);
          destruct (rm_loop parse f2 (b ++ e)); reflexivity).
     - inversion H; subst. rewrite prepend_nil. apply rm_loop_mono; [lia|assumption].
   Qed.
 
   (* an error point found in d is found at the same place, after the same messages, in d ++ e *)
   Lemma rm_loop_err e : forall f d ms b x,
+    len (d ++ e) < B ->
     rm_loop parse f d = RM ms b (Some x) ->
     rm_loop parse f (d ++ e) = RM ms (b ++ e) (Some x).
   Proof.
-    induction f as [|f IH]; intros d ms b x H; [cbn in H; discriminate|].
+    induction f as [|f IH]; intros d ms b x Hb H; [cbn in H; discriminate|].
     rewrite rm_loop_S in H.
     destruct d as [|y d]; [discriminate|].
-    pose proof (parse_stable (y :: d) e) as St.
+    pose proof (parse_stable (y :: d) e Hb) as St. pose proof (parse_good (y :: d)) as G.
     destruct (parse (y :: d)) as [args k rest| |x0| |] eqn:P; try discriminate.
-    - cbn [cext] in St. rewrite rm_loop_S. change ((y :: d) ++ e) with (y :: d ++ e) in *. rewrite St.
+    - assert (Hb' : len (rest ++ e) < B) by (rewrite len_app in *; lia).
+      cbn [cext] in St. rewrite rm_loop_S. change ((y :: d) ++ e) with (y :: d ++ e) in *. rewrite St.
       destruct k; destruct args; try discriminate;
         (destruct (rm_loop parse f rest) as [ms' b' x'| | |] eqn:D; try discriminate;
-         injection H as Hm Hb Hx; subst ms b x'; rewrite (IH rest ms' b' x D); reflexivity).
+         injection H as Hm Hbb Hx; subst ms b x'; rewrite (IH rest ms' b' x Hb' D); reflexivity).
     - cbn [cext] in St. inversion H; subst. rewrite rm_loop_S. change ((y :: d) ++ e) with (y :: d ++ e) in *.
       rewrite St. reflexivity.
   Qed.
@@ -166,3 +175,323 @@ Lemma pinned_parser_panics :
   read_next [42; 49; 13; 10; 36; 45; 50; 13; 10]%N = Panic /\              (* "*1\r\n$-2\r\n"  *)
   (forall http, conn_run (read_cmd http) [[42; 49; 13; 10; 36; 45; 50; 13; 10]%N] [] [] = Crashed).
 Proof. repeat split; intros; vm_compute; reflexivity. Qed.
+
+(* ---------- k-way chunking: feeding any segmentation = feeding the stream whole ---------- *)
+Section Chunking.
+  Variable parse : bytes -> cres.
+  Variable B : Z.
+  Hypothesis parse_stable : forall d e, len (d ++ e) < B -> cext e (parse d) (parse (d ++ e)).
+  Hypothesis parse_good : cgood parse.
+
+  Definition rm_all (d : bytes) : rm_res := rm_loop parse (S (length d)) d.
+
+  Lemma rm_loop_no_fuel : forall f d, (length d < f)%nat -> rm_loop parse f d <> RMFuel.
+  Proof.
+    induction f as [|f IH]; intros d Hf; [lia|].
+    rewrite rm_loop_S. destruct d as [|x d]; [discriminate|].
+    pose proof (parse_good (x :: d)) as G.
+    destruct (parse (x :: d)) as [args k rest| | | |]; try discriminate; [|contradiction].
+    assert (Hl : (length rest < length (x :: d))%nat) by (rewrite !len_spec in G; lia).
+    pose proof (IH rest ltac:(lia)) as Hr.
+    destruct k; destruct args; try discriminate; destruct (rm_loop parse f rest); try discriminate; congruence.
+  Qed.
+
+  Lemma rm_all_app pre c acc buf : len (pre ++ c) < B ->
+    rm_all pre = RM acc buf None -> rm_all (pre ++ c) = prepend acc (rm_all (buf ++ c)).
+  Proof.
+    intros Hb Hpre. unfold rm_all in *.
+    pose proof (rm_loop_no_fuel (S (length (buf ++ c))) (buf ++ c) ltac:(lia)) as Hnf.
+    rewrite <- (rm_loop_app parse B parse_stable parse_good c (S (length pre)) pre acc buf (S (length (buf ++ c))) Hb Hpre Hnf).
+    symmetry. apply (rm_loop_mono parse B parse_stable).
+    - rewrite !app_length. lia.
+    - apply rm_loop_no_fuel. lia.
+  Qed.
+
+  Lemma rm_all_err pre e ms b x : len (pre ++ e) < B ->
+    rm_all pre = RM ms b (Some x) -> rm_all (pre ++ e) = RM ms (b ++ e) (Some x).
+  Proof.
+    intros Hb H. unfold rm_all in *.
+    pose proof (rm_loop_err parse B parse_stable parse_good e _ _ _ _ _ Hb H) as He.
+    rewrite (rm_loop_mono parse B parse_stable (S (length pre)) (pre ++ e) (S (length (pre ++ e)))).
+    - exact He.
+    - rewrite app_length. lia.
+    - rewrite He. discriminate.
+  Qed.
+
+  Definition whole_result (stream : bytes) : conn_res := conn_run parse [stream] [] [].
+
+  Lemma whole_result_eq stream : whole_result stream =
+    match rm_all stream with
+    | RM ms b None => Open ms b
+    | RM ms b (Some e) => Closed ms e
+    | RMAbort => Aborted []
+    | RMPanic => Crashed
+    | RMFuel => NoFuel
+    end.
+  Proof.
+    unfold whole_result, rm_all. cbn [conn_run]. unfold rm_step. cbn [app].
+    destruct (rm_loop parse (S (length stream)) stream) as [ms b [e|]| | |]; reflexivity.
+  Qed.
+
+  Lemma firstn_app_exact (A : Type) (a b : list A) : firstn (length a) (a ++ b) = a.
+  Proof. rewrite firstn_app, Nat.sub_diag, firstn_O, app_nil_r. apply firstn_all. Qed.
+
+  Lemma conn_run_gen : forall chunks pre buf acc,
+    len (pre ++ concat chunks) < B ->
+    rm_all pre = RM acc buf None ->
+    (forall k, rm_all (firstn k (pre ++ concat chunks)) <> RMPanic) ->
+    (forall k, rm_all (firstn k (pre ++ concat chunks)) <> RMAbort) ->
+    conn_run parse chunks buf acc = whole_result (pre ++ concat chunks).
+  Proof.
+    induction chunks as [|c rest IH]; intros pre buf acc Hb Hpre Hnp Hna.
+    - cbn [concat conn_run]. rewrite app_nil_r, whole_result_eq, Hpre. reflexivity.
+    - cbn [concat conn_run]. unfold rm_step. fold (rm_all (buf ++ c)).
+      cbn [concat] in Hb. pose proof (len_nonneg (concat rest)) as Hcr.
+      assert (Hb1 : len (pre ++ c) < B) by (rewrite !len_app in *; lia).
+      assert (Hb2 : len ((pre ++ c) ++ concat rest) < B) by (rewrite <- app_assoc; exact Hb).
+      pose proof (rm_all_app pre c acc buf Hb1 Hpre) as Hall.
+      pose proof (rm_loop_no_fuel (S (length (buf ++ c))) (buf ++ c) ltac:(lia)) as Hnf. fold (rm_all (buf ++ c)) in Hnf.
+      destruct (rm_all (buf ++ c)) as [ms b [x|]| | |] eqn:R; cbn [prepend] in Hall.
+      + rewrite whole_result_eq. rewrite app_assoc. rewrite (rm_all_err _ (concat rest) _ _ _ Hb2 Hall). reflexivity.
+      + rewrite app_assoc. apply IH; [exact Hb2|exact Hall| |]; intros k; rewrite <- app_assoc; [apply Hnp|apply Hna].
+      + exfalso. apply (Hna (length (pre ++ c))). cbn [concat]. rewrite app_assoc, firstn_app_exact. exact Hall.
+      + exfalso. apply (Hnp (length (pre ++ c))). cbn [concat]. rewrite app_assoc, firstn_app_exact. exact Hall.
+      + congruence.
+  Qed.
+
+  (* feeding the chunks one ReadMessages call at a time = feeding their concatenation in one call:
+     same messages in the same order, same error point, same leftover *)
+  Theorem conn_run_chunking chunks :
+    len (concat chunks) < B ->
+    (forall k, rm_all (firstn k (concat chunks)) <> RMPanic) ->
+    (forall k, rm_all (firstn k (concat chunks)) <> RMAbort) ->
+    conn_run parse chunks [] [] = conn_run parse [concat chunks] [] [].
+  Proof.
+    intros Hb Hp Ha. exact (conn_run_gen chunks [] [] [] Hb eq_refl Hp Ha).
+  Qed.
+End Chunking.
+
+(* ---------- the model of readNextHTTPCommand: stability and progress ---------- *)
+Lemma crlf_go_app e : forall s prev r line rest,
+  crlf_go s prev r = Some (line, rest) -> crlf_go (s ++ e) prev r = Some (line, rest ++ e).
+Proof.
+  induction s as [|x s IH]; intros prev r line rest H; cbn [crlf_go app] in *; [discriminate|].
+  destruct ((x =? LF) && (prev =? CR))%N; [inversion H; subst; reflexivity|]. apply IH; assumption.
+Qed.
+Lemma crlf_go_shorter : forall s prev r line rest,
+  crlf_go s prev r = Some (line, rest) -> (length rest < length s)%nat.
+Proof.
+  induction s as [|x s IH]; intros prev r line rest H; cbn [crlf_go] in H; [discriminate|].
+  destruct ((x =? LF) && (prev =? CR))%N; [inversion H; subst; cbn [length]; lia|].
+  apply IH in H. cbn [length]. lia.
+Qed.
+Lemma readcrlf_app e p line rest : readcrlf p = Some (line, rest) -> readcrlf (p ++ e) = Some (line, rest ++ e).
+Proof. destruct p as [|c s]; [discriminate|]. cbn [readcrlf app]. apply crlf_go_app. Qed.
+Lemma readcrlf_shorter p line rest : readcrlf p = Some (line, rest) -> (length rest < length p)%nat.
+Proof. destruct p as [|c s]; [discriminate|]. cbn [readcrlf length]. intros H. apply crlf_go_shorter in H. lia. Qed.
+
+Lemma read_headers_app e : forall f p racc hs rest f',
+  read_headers f p racc = HOk hs rest -> (f <= f')%nat ->
+  read_headers f' (p ++ e) racc = HOk hs (rest ++ e).
+Proof.
+  induction f as [|f IH]; intros p racc hs rest f' H Hle; [discriminate|].
+  destruct f' as [|f']; [lia|]. cbn [read_headers] in *.
+  destruct (readcrlf p) as [[line r]|] eqn:R; [|discriminate].
+  rewrite (readcrlf_app e _ _ _ R).
+  destruct line; [inversion H; subst; reflexivity|]. apply (IH r); [assumption|lia].
+Qed.
+Lemma read_headers_shorter : forall f p racc hs rest,
+  read_headers f p racc = HOk hs rest -> (length rest < length p)%nat.
+Proof.
+  induction f as [|f IH]; intros p racc hs rest H; [discriminate|]. cbn [read_headers] in H.
+  destruct (readcrlf p) as [[line r]|] eqn:R; [|discriminate]. apply readcrlf_shorter in R.
+  destruct line; [inversion H; subst; assumption|]. apply IH in H. lia.
+Qed.
+Lemma read_headers_no_fuel : forall f p racc, (length p < f)%nat -> read_headers f p racc <> HFuel.
+Proof.
+  induction f as [|f IH]; intros p racc Hf; [lia|]. cbn [read_headers].
+  destruct (readcrlf p) as [[line r]|] eqn:R; [|discriminate]. apply readcrlf_shorter in R.
+  destruct line; [discriminate|]. apply IH. lia.
+Qed.
+
+Lemma http_finish_stable e path rest : cext e (http_finish path rest) (http_finish path (rest ++ e)).
+Proof.
+  unfold http_finish. destruct path; [reflexivity|].
+  destruct (native_tok _ _ _); cbn; try exact I; reflexivity.
+Qed.
+
+Lemma http_stable d e : cext e (http_parse d) (http_parse (d ++ e)).
+Proof.
+  unfold http_parse.
+  destruct (read_headers (S (length d)) d []) as [|hs rest|] eqn:RH; try exact I.
+  rewrite (read_headers_app e _ _ _ _ _ (S (length (d ++ e))) RH) by (rewrite app_length; lia).
+  destruct hs as [|first hs]; [exact I|].
+  destruct (split_on 32 first []) as [|method [|rawpath [|proto [|x l]]]]; try reflexivity.
+  destruct (bytes_eqb method w_options); [exact I|].
+  destruct rawpath as [|c0 escaped]; [reflexivity|].
+  destruct c0 as [|p0]; [reflexivity|].
+  do 6 (destruct p0 as [p0|p0|]; try reflexivity).
+  destruct (query_unescape escaped) as [path|]; [|reflexivity].
+  destruct (negb _); [reflexivity|].
+  destruct (fold_headers hs _) as [st|c]; [|reflexivity].
+  destruct (h_ws st && (13 <=? h_wsver st) && h_wskey st); [apply http_finish_stable|].
+  destruct (0 <? h_cl st) eqn:Hcl; [|apply http_finish_stable].
+  destruct (Z.ltb_spec (len rest) (h_cl st)) as [Hlt|Hge]; [exact I|].
+  pose proof (len_nonneg e).
+  destruct (Z.ltb_spec (len (rest ++ e)) (h_cl st)) as [Hlt2|_]; [rewrite len_app in Hlt2; lia|].
+  destruct (slice rest 0 (h_cl st)) as [body|] eqn:Sb; [|exact I].
+  rewrite (slice_app_l _ e _ _ _ Sb).
+  destruct (slice_from rest (h_cl st)) as [rest'|] eqn:Sf; [|exact I].
+  rewrite (slice_from_app_l _ e _ _ Sf). apply http_finish_stable.
+Qed.
+
+Lemma http_finish_good path rest p : len rest < len p ->
+  match http_finish path rest with CComplete _ _ r => len r < len p | CFuel => False | _ => True end.
+Proof.
+  intros H. unfold http_finish. destruct path as [|c path]; [exact H|].
+  pose proof (ChunkProofs.native_tok_no_fuel (S (length (c :: path))) (c :: path) [] ltac:(lia)) as Hn.
+  destruct (native_tok _ _ _); try exact I; [exact H|congruence].
+Qed.
+
+Lemma http_good : cgood http_parse.
+Proof.
+  intros p. unfold http_parse.
+  pose proof (read_headers_no_fuel (S (length p)) p [] ltac:(lia)) as Hnf.
+  destruct (read_headers (S (length p)) p []) as [|hs rest|] eqn:RH; try exact I; [|congruence].
+  apply read_headers_shorter in RH. assert (Hr : len rest < len p) by (rewrite !len_spec; lia).
+  destruct hs as [|first hs]; [exact I|].
+  destruct (split_on 32 first []) as [|method [|rawpath [|proto [|x l]]]]; try exact I.
+  destruct (bytes_eqb method w_options); [exact I|].
+  destruct rawpath as [|c0 escaped]; [exact I|].
+  destruct c0 as [|p0]; [exact I|].
+  do 6 (destruct p0 as [p0|p0|]; try exact I).
+  destruct (query_unescape escaped) as [path|]; [|exact I].
+  destruct (negb _); [exact I|].
+  destruct (fold_headers hs _) as [st|c]; [|exact I].
+  destruct (h_ws st && (13 <=? h_wsver st) && h_wskey st); [apply http_finish_good; exact Hr|].
+  destruct (0 <? h_cl st) eqn:Hcl; [|apply http_finish_good; exact Hr].
+  destruct (len rest <? h_cl st); [exact I|].
+  destruct (slice rest 0 (h_cl st)) as [body|]; [|exact I].
+  destruct (slice_from rest (h_cl st)) as [rest'|] eqn:Sf; [|exact I].
+  apply http_finish_good. apply slice_from_range in Sf. lia.
+Qed.
+
+(* ---------- the tile38-level entry point with the modelled HTTP parser ---------- *)
+Definition t38_parse : bytes -> cres := read_cmd http_parse.
+Definition t38_parse_fixed : bytes -> cres := read_cmd_fixed http_parse.
+
+Lemma t38_parse_stable d e : cext e (t38_parse d) (t38_parse (d ++ e)).
+Proof. apply read_cmd_stable. apply http_stable. Qed.
+
+Lemma of_result_good p : match of_result (read_next p) with CComplete _ _ r => len r < len p | CFuel => False | _ => True end.
+Proof. pose proof (read_next_good p) as G. destruct (read_next p); cbn [of_result]; auto. Qed.
+
+Lemma t38_parse_good : cgood t38_parse.
+Proof.
+  intros p. unfold t38_parse, read_cmd. destruct (sniff p); try exact I; [apply http_good|apply of_result_good].
+Qed.
+
+Theorem t38_chunking chunks :
+  (forall k, rm_all t38_parse (firstn k (concat chunks)) <> RMPanic) ->
+  (forall k, rm_all t38_parse (firstn k (concat chunks)) <> RMAbort) ->
+  conn_run t38_parse chunks [] [] = conn_run t38_parse [concat chunks] [] [].
+Proof.
+  apply (conn_run_chunking t38_parse (len (concat chunks) + 1)); [intros; apply t38_parse_stable|exact t38_parse_good|lia].
+Qed.
+
+(* ---------- the repaired entry point: a recovered panic is an error found at the same place ---------- *)
+Lemma find_crlf_range : forall s prev i k, find_crlf s prev i = Some k -> i <= k < i + len s.
+Proof.
+  induction s as [|x s IH]; intros prev i k H; cbn [find_crlf] in H; [discriminate|].
+  rewrite len_cons. pose proof (len_nonneg s).
+  destruct ((x =? LF) && (prev =? CR))%N; [inversion H; subst; lia|]. apply IH in H. lia.
+Qed.
+
+Lemma sniff_no_panic p : p <> [] -> sniff p <> SPanic.
+Proof.
+  destruct p as [|c s]; [congruence|]. intros _. cbn [sniff].
+  destruct ((c =? 71) || (c =? 80) || (c =? 79))%N; [|discriminate].
+  destruct (find_crlf s c 1) as [i|] eqn:F; [|discriminate]. apply find_crlf_range in F.
+  destruct (Z.ltb_spec 11 (i + 1)); [|discriminate].
+  destruct (slice_some (c :: s) (i + 1 - 11) (i + 1 - 5) ltac:(lia) ltac:(rewrite len_cons; lia)) as [w Hw].
+  rewrite Hw. destruct (bytes_eqb w w_http); discriminate.
+Qed.
+
+Lemma http_finish_panic path rest rest' : http_finish path rest = CPanic -> http_finish path rest' = CPanic.
+Proof. unfold http_finish. destruct path; [discriminate|]. destruct (native_tok _ _ _); try discriminate; reflexivity. Qed.
+
+Lemma http_panic_stable d e : http_parse d = CPanic -> http_parse (d ++ e) = CPanic.
+Proof.
+  unfold http_parse.
+  destruct (read_headers (S (length d)) d []) as [|hs rest|] eqn:RH; try discriminate.
+  rewrite (read_headers_app e _ _ _ _ _ (S (length (d ++ e))) RH) by (rewrite app_length; lia).
+  destruct hs as [|first hs]; [reflexivity|].
+  destruct (split_on 32 first []) as [|method [|rawpath [|proto [|x l]]]]; try discriminate.
+  destruct (bytes_eqb method w_options); [discriminate|].
+  destruct rawpath as [|c0 escaped]; [discriminate|].
+  destruct c0 as [|p0]; [discriminate|].
+  do 6 (destruct p0 as [p0|p0|]; try discriminate).
+  destruct (query_unescape escaped) as [path|]; [|discriminate].
+  destruct (negb _); [discriminate|].
+  destruct (fold_headers hs _) as [st|c]; [|discriminate].
+  destruct (h_ws st && (13 <=? h_wsver st) && h_wskey st); [apply http_finish_panic|].
+  destruct (Z.ltb_spec 0 (h_cl st)) as [Hcl|Hcl]; [|apply http_finish_panic].
+  destruct (Z.ltb_spec (len rest) (h_cl st)) as [Hlt|Hge]; [discriminate|].
+  pose proof (len_nonneg e).
+  destruct (Z.ltb_spec (len (rest ++ e)) (h_cl st)) as [Hlt2|_]; [rewrite len_app in Hlt2; lia|].
+  destruct (slice_some rest 0 (h_cl st) ltac:(lia) Hge) as [body Sb]. rewrite Sb, (slice_app_l _ e _ _ _ Sb).
+  destruct (slice_from_some rest (h_cl st) ltac:(lia)) as [rest' Sf]. rewrite Sf, (slice_from_app_l _ e _ _ Sf).
+  apply http_finish_panic.
+Qed.
+
+Lemma t38_parse_panic_stable d e : d <> [] -> len (d ++ e) < BIG ->
+  t38_parse d = CPanic -> t38_parse (d ++ e) = CPanic.
+Proof.
+  intros Hne Hbig. unfold t38_parse, read_cmd.
+  pose proof (sniff_stable d e) as S. pose proof (sniff_no_panic d Hne) as Hnp.
+  destruct (sniff d); try discriminate; try congruence; rewrite S.
+  - apply http_panic_stable.
+  - intros H. destruct (read_next d) eqn:R; try discriminate.
+    rewrite (read_next_panic_stable d e Hbig R). reflexivity.
+Qed.
+
+Lemma t38_fixed_stable d e : len (d ++ e) < BIG -> cext e (t38_parse_fixed d) (t38_parse_fixed (d ++ e)).
+Proof.
+  intros Hbig. unfold t38_parse_fixed, read_cmd_fixed.
+  destruct d as [|c d]; [exact I|]. change ((c :: d) ++ e) with (c :: d ++ e) in *.
+  pose proof (t38_parse_stable (c :: d) e) as St.
+  pose proof (t38_parse_panic_stable (c :: d) e ltac:(discriminate) Hbig) as Sp.
+  unfold t38_parse in *. change ((c :: d) ++ e) with (c :: d ++ e) in *.
+  destruct (read_cmd http_parse (c :: d)); cbn [recovered cext] in *; try exact I.
+  - rewrite St. reflexivity.
+  - rewrite St. reflexivity.
+  - rewrite Sp by reflexivity. reflexivity.
+Qed.
+
+Lemma t38_fixed_good : cgood t38_parse_fixed.
+Proof.
+  intros p. unfold t38_parse_fixed, read_cmd_fixed. destruct p as [|c p]; [exact I|].
+  pose proof (t38_parse_good (c :: p)) as G. unfold t38_parse in G.
+  destruct (read_cmd http_parse (c :: p)); cbn [recovered] in *; auto.
+Qed.
+
+Lemma t38_fixed_no_panic d : t38_parse_fixed d <> CPanic.
+Proof. apply read_cmd_fixed_no_panic. Qed.
+
+(* k-way chunking for the repaired entry point: no panic hypothesis is left *)
+Theorem t38_fixed_chunking chunks :
+  len (concat chunks) < BIG ->
+  (forall k, rm_all t38_parse_fixed (firstn k (concat chunks)) <> RMAbort) ->
+  conn_run t38_parse_fixed chunks [] [] = conn_run t38_parse_fixed [concat chunks] [] [].
+Proof.
+  intros Hb Ha. apply (conn_run_chunking t38_parse_fixed BIG); try assumption.
+  - intros d e H. apply t38_fixed_stable; assumption.
+  - exact t38_fixed_good.
+  - intros k. apply rm_loop_no_panic. exact t38_fixed_no_panic.
+Qed.
+
+(* the message list and the error point, read off a connection outcome *)
+Definition conn_msgs (r : conn_res) : list msg :=
+  match r with Open ms _ | Closed ms _ | Aborted ms => ms | _ => [] end.
+Definition conn_err (r : conn_res) : option cerr :=
+  match r with Closed _ e => Some e | _ => None end.
